@@ -26,6 +26,21 @@ CLAIMED = {
  "C06": ("C", "deterministic simulation of a real actor system; lifecycle grammar oracle per incarnation plus online PostStop/Receive overlap detector",
          "Seeded search over interleavings of message traffic (handlers that take simulated time) with nine stop paths issued from external goroutines and from other actors' turns; per incarnation PreStart must finish before the first Receive, PostStop runs at most once, no Receive starts after PostStop started, and PostStop never overlaps Receive on another goroutine. Known deviations of the external stop paths are listed in known_findings.jsonl with one signature per path and class. Sampling, not proof.",
          "BoundedMailbox is left out (see DESIGN.md observations)."),
+ "C23": ("S", "deterministic simulation of the real proto client/server over simulated connections that fragment, delay, truncate and corrupt; round-trip and robustness oracles",
+         "Seeded search over message kinds of the internal wire schema, metadata maps up to the 65535-byte wire limit, deadlines, batching, fragmentation and latency: what the real server decodes and what the real client gets back must equal what was sent (message, type name, headers, deadline re-based by the transit time, order). Malformed half: truncation at any byte, corrupted and oversized length fields and flipped bytes must end in an error or a closed connection, never a panic (server panic handler, in-memory decoder under recover) and never an allocation beyond the frame limit (TotalAlloc delta). Sampling, not proof.",
+         "The algebraic single-frame round trip is exercised only as a by-product; TLS and the real accept loop are not exercised."),
+ "C24": ("S", "deterministic simulation of compressed connections over simulated byte streams with fragmentation, resets and early close; prefix/equality oracle",
+         "Seeded search over write sizes 0..256 KiB (compressible and random), read buffer sizes, fragmentation and connection endings (clean close, reset mid-stream, close with unread data) for none/gzip/zstd/brotli, with consecutive connections reusing the pooled encoders/decoders: bytes read must be a prefix of bytes written and equal after a clean close. Sampling, not proof.",
+         "The compression libraries themselves are third-party code running un-instrumented (single-threaded configuration)."),
+ "C27": ("D", "deterministic simulation of two real actor systems with remoting over a simulated network; order / at-most-once / no-silent-drop oracles over the shared event log and the sender's dead letters",
+         "Seeded search over interleavings of 1-4 concurrent callers with the per-destination coalescer (stock batch 256 and a build variant with batch 4), connection resets, stalls past the flush timeout, refused dials, latency, fragmentation and the sender's system stopping with messages pending: per caller the delivered tags are an order-preserving duplicate-free subsequence, and every accepted tell is delivered or appears in the sender's dead letters within 30 s of simulated time. Sampling, not proof.",
+         "Runs in which the sender's system stops keep the network healthy, because goakt deliberately does not dead-letter batch failures once shutdown has begun."),
+ "C28": ("D", "deterministic simulation of two real actor systems with remoting over a simulated network; reply-identity oracle",
+         "Seeded search over interleavings of 2-6 concurrent RemoteAsk / RemoteBatchAsk callers over the pooled connections with responder latencies, timeouts drawn around them, latency that reorders pooled connections, resets and stalls: every successful ask returns the reply carrying its own request tag, batch responses come back in request order. Sampling, not proof.",
+         "-"),
+ "C29": ("D", "deterministic simulation of two real actor systems with remoting over a simulated network; per-message header oracle",
+         "Same runs as C28 with a ContextPropagator that injects one unique header per call (asks, tells, coalesced batches mixing callers, stock and batch-4 build variants): the header restored for message tag t on the receiving node must be the one injected for t. Sampling, not proof.",
+         "-"),
 }
 NA = {
  "C22": "pure function of a call count under a mutex: no schedule, clock, I/O or fault can change the answer, so a simulator has nothing to search",
@@ -74,6 +89,8 @@ m = {
  "engines": [
    {"name": "A", "path": "scen/c04_mailbox.go", "serves_properties": ["C04"], "kind_free_text": "mailbox micro-simulation: harness producer/consumer threads on the real Mailbox implementations under the simrt scheduler inside a synctest bubble"},
    {"name": "B", "path": "harness/actor/zz_verif_rq.go", "serves_properties": ["C05"], "kind_free_text": "ready-queue micro-simulation compiled into package actor through the build overlay"},
+   {"name": "S", "path": "scen/c23_c24_stream.go", "serves_properties": ["C23", "C24"], "kind_free_text": "byte-stream simulation: real internal/net client, server, codec and compression wrappers over simnet connections"},
+   {"name": "D", "path": "scen/remote.go", "serves_properties": ["C27", "C28", "C29"], "kind_free_text": "two-node remoting simulation: two real actor systems over simnet behind hook H1"},
    {"name": "C", "path": "scen/sys.go", "serves_properties": ["C01", "C02", "C03", "C06"], "kind_free_text": "single-node simulation: a real actor system (dispatcher, mailboxes, supervision, passivation, scheduler) with scripted probe actors, every goroutine under the simrt scheduler, fake clock"},
  ],
  "checks": checks,
